@@ -451,6 +451,11 @@ fn check_fen_text(text: &str, expect: Option<&Pos>) -> Option<String> {
         Err(_) => Some("from_fen panicked".into()),
         Ok(Err(e)) => expect.map(|_| format!("well-formed FEN of a legal position rejected: {}", e)),
         Ok(Ok(b)) => {
+            // whatever text was accepted, the returned board must be a well-formed mailbox: sentinel ring intact, no sentinel inside
+            for r in 0..12 { for c in 0..12 {
+                let inside = (2..10).contains(&r) && (2..10).contains(&c);
+                if (b.board[r][c] == Square::Boundary) == inside { return Some(format!("accepted text yields a corrupt board: cell ({},{}) is {}", r, c, if inside { "a sentinel inside the board" } else { "not a sentinel outside the board" })); }
+            } }
             if let Some(p) = expect {
                 let h = ZobristHasher::create_zobrist_hasher();
                 if let Some(d) = board_matches(&b, p) { return Some(format!("loaded position differs from the FEN: {}", d)); }
